@@ -21,7 +21,7 @@ def warm():
 def run(ctx):
     ctx.cov["trusted_base"] += [
         "vrt/vrt.cpp futex emulation (FUTEX_WAIT re-checks the word under the scheduler lock, FUTEX_WAKE(INT_MAX) wakes every sleeper on the address), virtual clock, deadlock verdict = all live threads blocked and no timed sleeper",
-        "the kernel futex contract and real scheduling delay after a deadline are modelled, not verified; fairness of the scheduler is assumed (the theorems are the safety form of liveness: some thread can always make progress, or a needed ticket has not been requested yet)",
+        "the kernel futex contract and real scheduling delay after a deadline are modelled, not verified; fairness of the scheduler is assumed (bq_no_stuck is the safety form of liveness: some thread inside an operation is always Runnable, or a needed ticket has not been requested by the client yet; bq_guard_stable keeps that step useful)",
         "executions are sequentially consistent interleavings; the store-buffer window of the batch waker is covered by the generated obligation that the seq_cst fence is present (gen_skel_deal_n / gen_ords_*), not by simulation",
         "Ver16Faithful and the client pairing contract as in C01",
     ]
@@ -80,7 +80,7 @@ def replay(ctx, path):
 
 
 MANIFEST = {
-    "technique": "Lean 4 proof (inductive invariants on sleepers / pending wake obligations and a minimal-version progress argument over all interleavings, capacities and thread counts) + translator-generated obligations on the wake-up code + lock-step replay of real executions under a deterministic scheduler with futex emulation, virtual time and a deadlock verdict",
-    "text": "Theorems in lean/Babylon/Properties/C02.lean: a sleeper's observed word is still current, or a waker owes it a wake-up, or it is already runnable; an awaited version, once present, stays until its waiter acts; in no reachable state are all unfinished threads blocked unless a needed ticket has not been requested by the client; the timed wait never starts after its deadline.  Every VRT trace of the real queue is a path of the model, so the implementation performs every wake-up the model performs; balanced programs never end in the scheduler's deadlock verdict",
+    "technique": "Lean 4 proof (inductive invariants on sleepers, waiter bits, committed and conditional wake-up obligations and the USE_FUTEX_WAIT/USE_FUTEX_WAKE pairing, plus a minimal-version no-cyclic-wait argument, over all interleavings, capacities and thread counts) + translator-generated obligations on the wake-up code + lock-step replay of real executions under a deterministic scheduler with futex emulation, virtual time and a deadlock verdict (SC and weak-memory view mode)",
+    "text": "Theorems in lean/Babylon/Properties/C02.lean: while a thread sleeps on a slot the waiter bit is still set or a thread is committed to wake_all (bq_sleep_sound); a sleeper whose awaited version is present is owed a wake-up by the exchanging waker or by the batch waker between its store and its CAS-clear (bq_wake_pending, under the pairing invariant bq_pairing); an awaited version, once present, stays until its waiter acts (bq_guard_stable); whenever a thread is inside an operation some thread is Runnable or a needed ticket has not been requested by the client (bq_no_stuck); the timed wait never waits longer than the call's timeout and ends at expiry (bq_timed_bound / bq_timed_expiry).  Every VRT trace of the real queue is a path of the model, so the implementation performs every wake-up the model performs; balanced programs never end in the scheduler's deadlock verdict",
     "note": "Trusted: Lean kernel + 3 standard axioms; gen/bq.py; vrt/ futex and clock emulation; fairness assumed; SC interleavings (the seq_cst fence of the batch waker is tied by a generated obligation); Ver16Faithful; pairing contract",
 }
